@@ -17,7 +17,7 @@ GEN = ("generated base modules (0-5 imports of all five kinds interleaved, 1-4 l
        "function-list and expression element segments, active data segments with constant and global.get offsets) and histories of 0-7 edits (add local/import, delete, local->import, "
        "import->local with built bodies that carry references, iterator-level add_global, add/delete export, add_data) using the ids the API really returned; references in original, built and injected code (injected at the start of a probe function and, in half of the cases, in front of its final `end`); ")
 PROPS = {
- "C06": mk("C06", ["C06_reorganise_closed_form", "C06_index_space_closed_form", "C06_mapping_position", "C06_mapping_injective", "C06_mapping_absent", "C06_function_operator_tables_exact", "C06_wf_is_an_invariant_of_every_edit", "C06_wf_holds_of_every_base_module", "C06_binding_after_any_history", "C06_binding_on_the_emitted_module"],
+ "C06": mk("C06", ["C06_reorganise_closed_form", "C06_index_space_closed_form", "C06_mapping_position", "C06_mapping_injective", "C06_mapping_absent", "C06_function_operator_tables_exact", "C06_wf_is_an_invariant_of_every_edit", "C06_wf_holds_of_every_base_module", "C06_binding_after_any_history", "C06_binding_on_the_emitted_module", "C06_returned_id_stays_bound"],
            GEN + "non-trivial = history non-empty and at least one reference site",
            "Proof on the model: a well-formedness invariant of the three index spaces is preserved by every edit, and after ANY history, with no premise left, every live id is mapped to the index at which Wasm's index rule finds that very entity in the emitted module (Proofs/ReidxInv.v), on top of the closed form of reorganise_generic and the id-map theorems. What the model cannot carry (which reference kinds the real encoder rewrites, validity of the bytes) is decided per history by evaluating, in Coq, "
            "the abstract handle specification against the decoded real output (every function reference kind, import-section order via Wasm's index rule, validity), with no known class left (D02 -- import section order vs index order --, D05 -- element expression items / offsets and table initialisers never re-indexed --, D06 / D26 -- deleted items that stayed in the index space -- and D07 -- ImportsID used as FunctionID -- are repaired: C06_former_D02_witness_holds, C06_former_D05_witness_holds, C06_former_D06_witness_holds, C09_former_D26_witness_holds, C10_former_D07_witness_holds)."),
